@@ -398,3 +398,47 @@ extern "C" int w_stopped(double timelimit, double infty, double now, int iterlim
    return r ? 1 : 0;
 }
 #endif
+
+/* ===================================================================================================================== */
+#ifdef INST_LIMITS
+/* The first block of _solveRealLPAndRecordStatistics(): the user's iteration / time limit is handed to the solver as what is
+ * LEFT of it.  Region slice (from the comment "set time and iteration limit" up to "ensure that tolerances are not too small");
+ * the two setters of SPxSolverBase are their real bodies (also under contract on their own in units/spxterm). */
+struct TimerStub { Real t; Real time() const { return t; } };
+struct StatStub { TimerStub* solvingTime; int iterations; };
+struct SolverStubL
+{
+   int maxIters; Real maxTime; int iter_calls, time_calls;
+   void setTerminationIter(int p_iteration)
+   {
+      iter_calls++;
+#include "setTerminationIter.inc"
+   }
+   void setTerminationTime(Real p_time)
+   {
+      time_calls++;
+#include "setTerminationTime.inc"
+   }
+};
+struct H : HostBase
+{
+   SolverStubL _solver;
+   StatStub* _statistics;
+   void body()
+   {
+#include "solveRealLP_limits.inc"
+   }
+};
+extern "C" void w_limits(int iterlimit, int done, double timelimit, double infty, double elapsed, int* maxIters, double* maxTime, int* iter_calls, int* time_calls)
+{
+   VIN("iterlimit", iterlimit); VIN("done", done); VIN("timelimit", timelimit); VIN("infty", infty); VIN("elapsed", elapsed);
+   SettingsStub set; H h; TimerStub tm; StatStub st;
+   set._intParamValues[SoPlexBase<R>::ITERLIMIT] = iterlimit;
+   set._realParamValues[SoPlexBase<R>::TIMELIMIT] = timelimit; set._realParamValues[SoPlexBase<R>::INFTY] = infty;
+   tm.t = elapsed; st.solvingTime = &tm; st.iterations = done;
+   h._currentSettings = &set; h._statistics = &st;
+   h._solver.maxIters = *maxIters; h._solver.maxTime = *maxTime; h._solver.iter_calls = 0; h._solver.time_calls = 0;
+   h.body();
+   *maxIters = h._solver.maxIters; *maxTime = h._solver.maxTime; *iter_calls = h._solver.iter_calls; *time_calls = h._solver.time_calls;
+}
+#endif
